@@ -107,7 +107,8 @@ CONFIG = dict(
          "malformed segments), protocol 1.0 tickets of the right/wrong tenant, internal tokens (random 0..64 bytes, wrong/empty "
          "secret, truncated/upper-case hex), URL mutations (other prefix on the same host, dot segments, encoded dots, other host/"
          "port/scheme, userinfo, unparsable), resume ids (private, public, mutated, foreign, junk, closed session), brute-force "
-         "bursts, session limits, and random frames of every message type before hello; a case is non-trivial if the real hub "
+         "bursts from one address / one IPv6 /64, session limits, and random frames of every message type before hello (valid, invalid, "
+         "undecodable, truncated JSON, junk bytes, binary); a case is non-trivial if the real hub "
          "accepted at least one hello and refused at least one request; distinct = distinct op lists",
     trusted_base=[
         "net/url parsing and URL.String() (URL facts are computed by the generator with the standard library)",
